@@ -4,10 +4,24 @@ import numpy as np
 from dask.array import Array as DaskArray  # type: ignore
 from dask.array.linalg import svd_compressed as dask_svd
 from dask.graph_manipulation import wait_on
-from scipy.sparse.linalg import svds as complex_svd  # type: ignore
+from scipy.sparse.linalg import svds as _svds  # type: ignore
 from sklearn.utils.extmath import randomized_svd
 
 from ...utils.sanity_checks import sanity_check_n_modes
+
+
+def complex_svd(X, **kwargs):
+    """Truncated SVD of a complex matrix (scipy ``svds``).
+
+    The iterative solvers behind ``svds`` test convergence against absolute tolerances,
+    so a matrix of very small (or large) magnitude is declared converged before any
+    iteration took place. Decompose the matrix at unit scale instead.
+    """
+    scale = np.abs(X).max()
+    if not np.isfinite(scale) or scale == 0:
+        scale = 1.0
+    U, s, VT = _svds(X / scale, **kwargs)
+    return U, s * scale, VT
 
 
 def get_deterministic_sign_multiplier(data, axis: int):
